@@ -278,6 +278,15 @@ def systematic(B, S):
         (B.Or(B.And(a, b), B.And(N(a), N(b))), N(B.Xor(a, b))), (B.Or(B.And(a, N(b)), B.And(N(a), b)), B.Xor(a, b)),
         (B.And(a, N(a), **U), B.false), (B.Or(a, N(a), **U), B.true),
     ]
+    # nested xnor patterns: both operands of an outer (x&y)|(~x&~y) are themselves patterns the rule rewrites
+    def xn(x, y):
+        return B.Or(B.And(x, y), B.And(N(x), N(y)))
+
+    def xo(x, y):
+        return B.Or(B.And(x, N(y)), B.And(N(x), y))
+    exprs += [xn(xn(a, b), xn(c, d)), xn(xn(a, b), xo(c, d)), xn(xo(a, b), xo(c, d)), xo(xn(a, b), xn(c, d)),
+              xn(xn(a, b), c), xn(N(a), xn(b, c)), xn(xn(a, b), xn(a, c)), xn(xn(xn(a, b), c), d),
+              B.Xor(xn(xn(a, b), xn(c, d)), t), B.And(xn(xn(a, b), xn(c, d)), t)]
     for x, y in pairs:
         for op in (B.Xor, B.And, B.Or):
             exprs += [op(x, y), op(y, x, **U), op(d, x, y), N(op(x, y, **U), **U)]
